@@ -11,7 +11,8 @@ registry histories (C17), together with the parts of forml/io/asset they rest on
 
 The registry of the one project the selector is bound to is `Rels`: releases in ascending key order, each with
 its generation keys in ascending order (what `Level.Listing` yields).  Histories are sequences of
-`publish r | commit r | tick | select use`, `tick` being one iteration of the body of `Latest._refresh`.
+`publish r | commit r | tick | select use | fault e`, `tick` being one iteration of the body of `Latest._refresh` and
+`fault e` a transient fault of the registry: the next registry call made by the refresher raises `e`, once.
 -/
 import ForML.Model.Strategy
 
@@ -123,13 +124,26 @@ structure LState where
   cache : Option Inst
   /-- the refresher thread has been started and has not died of an exception -/
   alive : Bool
+  /-- a transient registry fault is waiting for the refresher's next registry call -/
+  pending : Bool := false
   deriving DecidableEq, Repr
 
-def LState.init (rels : Rels) : LState := ⟨rels, none, false⟩
+def LState.init (rels : Rels) : LState := ⟨rels, none, false, false⟩
+
+/-- what a faulty registry raises into the refresher -/
+inductive Fault where
+  | missing   -- forml.MissingError
+  | invalid   -- forml.InvalidError / Level.Invalid
+  | os        -- OSError
+  | other     -- any other Exception
+  deriving DecidableEq, Repr
 
 /-- one iteration of the loop body of `Latest._refresh`: `new = self._pick(registry)`; `if new != old:` the cache
-entry is replaced.  An exception (of `_pick` or of the comparison, which resolves keys) ends the thread – unless
-`survive` (the repair proposed in fixes/C17-refresher-survives-errors.diff: log and retry next round). -/
+entry is replaced.  Every round with something cached calls the registry first thing (a pending fault strikes
+there, before anything is resolved or pinned).  An exception – of the registry, of `_pick` or of the comparison,
+which resolves keys – is caught by `except Exception`, logged, and the round retried after the interval
+(`survive = true`: the code as it is since 0762d05); `survive = false` is the refresher that ended with its first
+exception (finding C17-F2, and what any narrowing of that handler brings back for the exceptions it lets through). -/
 def LState.die (survive : Bool) (s : LState) : LState :=
   if survive then s else { s with alive := false }
 
@@ -138,6 +152,8 @@ def tick (survive : Bool) (cfg : Option Nat) (s : LState) : LState :=
     match s.cache with
     | none => s
     | some old =>
+      if s.pending then ({ s with pending := false }).die survive
+      else
       match pick cfg s.rels with
       | .error _ => s.die survive
       | .ok new =>
@@ -174,6 +190,7 @@ inductive LOp where
   | commit (r : Nat)
   | tick
   | select (use : Bool)
+  | fault (e : Fault)
   deriving DecidableEq, Repr
 
 inductive Obs where
@@ -187,6 +204,7 @@ def stepL (survive : Bool) (cfg : Option Nat) (s : LState) : LOp → LState × O
   | .publish r => ({ s with rels := publishRel r s.rels }, .quiet)
   | .commit r => ({ s with rels := commitRel r s.rels }, .quiet)
   | .tick => (tick survive cfg s, .quiet)
+  | .fault _ => ({ s with pending := true }, .quiet)
   | .select false =>
     match select cfg s with
     | (.error e, s') => (s', .err e)
